@@ -1579,7 +1579,53 @@ func c08RunJobs(jobs []*c08Job, nw int) []*c08Result {
 		}()
 	}
 	wg.Wait()
+	// Load independence: a job on which the workers died or ran into the deadline while all workers
+	// were busy is run once more ALONE (nothing else running, four times the deadline) before it is
+	// reported; only a death that repeats there is a host crash.
+	for k, r := range results {
+		if r == nil || r.Skipped || r.Outs != nil {
+			continue
+		}
+		if alone := c08RunAlone(jobs[k]); alone != nil {
+			results[k] = alone
+		}
+	}
 	return results
+}
+
+// c08RunAlone runs one job in a fresh worker process with a generous deadline; nil = it died again.
+func c08RunAlone(job *c08Job) *c08Result {
+	p := c08Spawn()
+	b, _ := json.Marshal(job)
+	if _, err := p.in.Write(append(b, '\n')); err != nil {
+		_ = p.cmd.Process.Kill()
+		_ = p.cmd.Wait()
+		return nil
+	}
+	type rd struct {
+		line []byte
+		err  error
+	}
+	ch := make(chan rd, 1)
+	go func() {
+		l, e := p.out.ReadBytes('\n')
+		ch <- rd{l, e}
+	}()
+	var res c08Result
+	select {
+	case x := <-ch:
+		if x.err != nil || json.Unmarshal(x.line, &res) != nil || res.ID != job.ID {
+			_ = p.cmd.Process.Kill()
+			_ = p.cmd.Wait()
+			return nil
+		}
+	case <-time.After(4 * c08JobTimeout):
+		_ = p.cmd.Process.Kill()
+		_ = p.cmd.Wait()
+		return nil
+	}
+	p.close()
+	return &res
 }
 
 // ---------------------------------------------------------------------------------------------
@@ -2186,7 +2232,7 @@ func c08ReplayMap(v *c08Variant, res *c08Result, at int, expectedFrom string) ma
 		"observed":      outs,
 		"expected":      v.model,
 		"expected_from": expectedFrom,
-		"relies_on":     []string{"SlipVerif.Compile.runC_correct", "SlipVerif.Compile.defs_commute", "SlipVerif.Compile.reeval_k", "SlipVerif.Compile.redefinition_takes_effect"},
+		"relies_on":     []string{"SlipVerif.Compile.runC_correct", "SlipVerif.Compile.defs_commute", "SlipVerif.Compile.reeval_k", "SlipVerif.Compile.redefinition_takes_effect", "SlipVerif.Compile.assignment_takes_effect", "SlipVerif.Compile.variable_definition_order"},
 	}
 }
 
@@ -2623,6 +2669,11 @@ func runC08(c *lib.Ctx) {
 			outs = r.Outs
 		}
 		c.Ev.Sample(map[string]any{"history": c08HistoryText(v.steps), "mode": v.mode, "impl": strings.Join(outs, " "), "model": strings.Join(v.model, " ")})
+	}
+	if c.GenBroken != "" {
+		// a regenerated fact about the shared-cell code (Theorems/GenC08) no longer holds: this run is
+		// the witness search; without a failing input tools/check.py reports no-failing-input-found
+		c.Ev.Coverage["witness_search_for_broken_obligation"] = c.GenBroken
 	}
 	c.Ev.Coverage["traces_validated_against_impl"] = len(variants)
 	c.Ev.Coverage["agreements"] = agree
